@@ -28,6 +28,7 @@ type conn struct {
 	net.Conn
 	requests chan data
 	results  map[int]chan data
+	closed   error // why no call can be registered any more; guarded by lock
 	lock     sync.Mutex
 	counter  int32
 	onClose  func(net.Conn)
@@ -63,10 +64,14 @@ func newConn(ctx context.Context, onConnect func(net.Conn) net.Conn, onClose fun
 	}, nil
 }
 
-func (c *conn) store(index int, resultChan chan data) {
+func (c *conn) store(index int, resultChan chan data) (err error) {
 	c.lock.Lock()
-	c.results[index] = resultChan
+	// a call that arrives after Close has swept the table would never be told
+	if err = c.closed; err == nil {
+		c.results[index] = resultChan
+	}
 	c.lock.Unlock()
+	return
 }
 
 func (c *conn) delete(index int) {
@@ -102,7 +107,9 @@ func (c *conn) rangeAndClean(f func(index int, resultChan chan data)) {
 func (c *conn) Transport(ctx context.Context, request []byte) (response []byte, err error) {
 	index := int(atomic.AddInt32(&c.counter, 1) & 0x7fffffff)
 	resultChan := make(chan data, 1)
-	c.store(index, resultChan)
+	if err = c.store(index, resultChan); err != nil {
+		return nil, err
+	}
 	select {
 	case <-ctx.Done():
 		c.delete(index)
@@ -222,6 +229,11 @@ func (c *conn) Close(err error) {
 		c.onClose(c.Conn)
 		_ = c.Conn.Close()
 	})
+	c.lock.Lock()
+	if c.closed == nil {
+		c.closed = err
+	}
+	c.lock.Unlock()
 	c.rangeAndClean(func(index int, resultChan chan data) {
 		resultChan <- data{
 			Index: index,
